@@ -2,12 +2,12 @@ SPEC = dict(
     props_file="C14",
     legs=[dict(family="countmin", focus="malformed", oracles=["no_panic"], profiles=["debug", "release"], n_quick=150, n_thorough=2000,
                panic_is_violation=True)],
-    level_text="Theorems (Props/C14.v): the modelled deserializers are total and never reach a modelled panic site for ANY byte string; "
+    level_text="Theorems (Props/C14.v and its parts Props/C14_<family>.v): the modelled deserializers are total and never reach a modelled panic site for ANY byte string; "
                "whatever they accept is well-shaped (table sizes, ranges) with allocation justified by the input length. Tie: structure-aware "
                "mutations of valid images and random bytes are fed to the crate (debug+release, catch_unwind, counting allocator: peak > 64*len+1MiB "
                "is flagged) and to the model; outcome classes must agree and every Ok value is queried, forked and re-serialized.",
     level_note="Partial: panics inside std, stack depth and real allocator behaviour are runtime facts observed by the harness, not modelled. "
-               "Families covered so far are listed in Props/C14.v.",
+               "The base file holds the Count-Min statements; the other families are parts (covered / NOT covered families are listed at the end of this note).",
     technique="Coq totality/no-stuck theorems over parser models + mutation-based differential testing with allocation accounting",
     trusted=["the set of modelled panic sites is what I read in the Rust readers"],
     assumptions=[],
